@@ -51,6 +51,13 @@ impl Rng {
     }
 }
 
+/// Code points where some narrower character type ends or a Unicode block with special treatment begins: intervals whose
+/// END POINTS are both drawn from this list cross or touch every such boundary in every combination.
+pub const LANDMARKS: [u32; 22] = [
+    0, 1, 0x7F, 0x80, 0xFF, 0x100, 0xD7FF, 0xD800, 0xD801, 0xDBFF, 0xDC00, 0xDFFE, 0xDFFF, 0xE000, 0xFFFD, 0xFFFE, 0xFFFF,
+    0x10000, 0x1FFFF, 0x20000, MAX_CHAR - 1, MAX_CHAR,
+];
+
 pub struct Out {
     w: BufWriter<File>,
     pub n: usize,
